@@ -8,7 +8,7 @@ import (
 
 // Case is one check: a list, the arguments, and either one page query or a chained walk.
 type Case struct {
-	Field  string `json:"field"` // itemsI (int64 key) | itemsS (string key) | bareI (no filter/sort fields)
+	Field  string `json:"field"` // itemsI (int64 key) | itemsS (string key) | itemsP (int64 key, pointer nodes) | bareI (no filter/sort fields)
 	Items  []Item `json:"items"`
 	Kind   string `json:"kind"` // page | walkf | walkb
 	K      int64  `json:"k,omitempty"`
@@ -160,10 +160,12 @@ func genCursor(r *vh.Rng, items []Item) *string {
 func genCase(r *vh.Rng) Case {
 	var c Case
 	switch k := r.Intn(100); {
-	case k < 50:
+	case k < 42:
 		c.Field = "itemsI"
-	case k < 92:
+	case k < 80:
 		c.Field = "itemsS"
+	case k < 92:
+		c.Field = "itemsP"
 	default:
 		c.Field = "bareI"
 	}
